@@ -485,8 +485,8 @@ Fixpoint to_html (done : fid -> bool) (v : view) (pos : position) : html * posit
          end) vs pos
   | VSuspend f c => if done f then to_html done c pos else ([], pos)
   | VBoundary f fb c some => to_html done fb pos        (* SuspenseBoundary: the fallback *)
-  | VAppend c => (fst (to_html done c pos), pos)        (* ErrorBoundary, no errors: the
-                                                           position is rendered on a copy *)
+  | VAppend c => to_html done c pos                    (* ErrorBoundary, no errors: its children
+                                                           and the position they leave *)
   | VRawSync s => (tb s, pos)
   | VRawAsync f c => if done f then (fst (to_html done c pos), pos) else ([], pos)
   end.
@@ -508,7 +508,7 @@ Fixpoint resolved (v : view) (pos : position) : html * position :=
          end) vs pos
   | VSuspend f c => resolved c pos
   | VBoundary f fb c some => if some then resolved c pos else resolved fb pos
-  | VAppend c => (fst (resolved c pos), pos)
+  | VAppend c => resolved c pos
   | VRawSync s => (tb s, pos)
   | VRawAsync f c => (fst (resolved c pos), pos)
   end.
@@ -558,8 +558,8 @@ Fixpoint render (ooo : bool) (done : fid -> bool) (v : view) (b : vsb) (pos : po
           (push_async _ _ f {| c_ooo := false; c_id := id; c_pos := pos;
                                c_view := if some then c else fb |} b, NextChild)
   | VAppend c =>
-      let '(nb, _) := render ooo done c (sb_new (clone_id _ _ b)) pos in
-      (append _ _ b nb, pos)
+      let '(nb, pos') := render ooo done c (sb_new (clone_id _ _ b)) pos in
+      (append _ _ b nb, pos')
   | VRawSync s => (push_sync _ _ (tb s) b, pos)
   | VRawAsync f c =>
       (push_async _ _ f {| c_ooo := ooo; c_id := clone_id _ _ b; c_pos := pos; c_view := c |} b,
